@@ -648,7 +648,9 @@ def split_runs(events: list[dict]) -> list[list[dict]]:
 ENTRY_POINTS = ("Retry", "Policy", "RetryPolicy", "Retry.context", "Policy.context",
                 "RetryPolicy.context", "decorator",
                 "AsyncRetry", "AsyncPolicy", "AsyncRetryPolicy", "AsyncRetry.context",
-                "AsyncPolicy.context", "AsyncRetryPolicy.context", "async-decorator")
+                "AsyncPolicy.context", "AsyncRetryPolicy.context", "async-decorator",
+                "Retry.from_config", "RetryPolicy.from_config", "AsyncRetry.from_config",
+                "AsyncRetryPolicy.from_config")
 CALL_ONLY = {e for e in ENTRY_POINTS if "context" in e or "decorator" in e}
 
 
@@ -660,7 +662,15 @@ def make_entry(entry: str, env: Env, ctor: dict, call: dict, breaker=None):
     is_async = entry.startswith(("Async", "async"))
     op = env.aop if is_async else env.op
     base = entry.split(".")[0]
-    if base in ("Retry", "AsyncRetry"):
+    if entry.endswith(".from_config"):
+        # the RetryConfig bundle must configure the same machine as the keyword constructor
+        from redress.config import RetryConfig
+        kw = dict(ctor)
+        classifier = kw.pop("classifier")
+        kw["default_strategy"] = kw.pop("strategy")
+        kw["class_strategies"] = kw.pop("strategies")
+        obj = getattr(rp, base).from_config(RetryConfig(**kw), classifier=classifier)
+    elif base in ("Retry", "AsyncRetry"):
         obj = getattr(rp, base)(**ctor)
     elif base in ("Policy", "AsyncPolicy"):
         inner = (rp.AsyncRetry if is_async else rp.Retry)(**ctor)
